@@ -536,7 +536,7 @@ std::string form_urlencoded_decode(const std::string_view input) {
       ++p;
     } else if (c == '%') {
       // Decode runs of valid %XX tightly (common for nested URL query values).
-      while (p + 2 < end && *p == '%') {
+      while (end - p > 2 && *p == '%') {
         const uint8_t hi = unhex_table[static_cast<uint8_t>(p[1])];
         const uint8_t lo = unhex_table[static_cast<uint8_t>(p[2])];
         if ((hi | lo) >= 16) {
